@@ -5,7 +5,7 @@ import ast
 import math
 from typing import Dict, List, Optional
 
-from .. import fx, q
+from .. import fx, pat, q
 from ..core import AnchorError, Ctx, FuncInfo, dotted, guard_facts, norm, walk_no_nested
 from ..rewrite import single_bindings
 from . import c10
@@ -256,18 +256,42 @@ def _index_form(fi: FuncInfo, loop: ast.For, fresh: str):
             t = re.sub(rf"(?<![\w.]){k}(?!\w)", f"len({L})", t)
         return t.replace(" ", "")
 
+    def lin(e):
+        """canonical text of an integer-linear expression (names standing for len(list) expanded)"""
+        env_ = {k: ast.parse(f"len({L})", mode="eval").body for k, L in lens.items()}
+        f = q.linear_form(e, env_)
+        if f is None:
+            return canon(norm(e))
+        parts = [f"{v}*{k}" if v != 1 else k for k, v in sorted(f.items()) if k]
+        c0 = f.get("", 0)
+        if c0 or not parts:
+            parts.append(str(c0))
+        return "+".join(parts)
+
     if isinstance(core, ast.Call) and norm(core.func) == "range" and isinstance(loop.target, ast.Name):
-        a = [canon(norm(x)) for x in core.args]
+        args_ = core.args
+        if len(args_) == 3 and norm(args_[2]).replace(" ", "") == "-1":
+            # range(hi, lo, -1) visits lo+1 .. hi downwards: the reversal of range(lo + 1, hi + 1)
+            lo_ = ast.BinOp(left=args_[1], op=ast.Add(), right=ast.Constant(value=1))
+            hi_ = ast.BinOp(left=args_[0], op=ast.Add(), right=ast.Constant(value=1))
+            a = [lin(lo_), lin(hi_)]
+            par += 1
+        elif len(args_) == 3:
+            return None
+        else:
+            a = [lin(x) for x in args_]
+        if len(a) == 2 and a[0] == "0":
+            a = a[1:]
         rng = f"range({a[0]})" if len(a) == 1 else f"range({','.join(a)})"
-        return loop.target.id, None, None, rng.replace("range(0,", "range("), par
+        return loop.target.id, None, None, rng, par % 2
     if isinstance(core, ast.Call) and norm(core.func) == "enumerate" and len(core.args) == 1 and isinstance(core.args[0], ast.Name) and isinstance(loop.target, ast.Tuple) and len(loop.target.elts) == 2:
         L = core.args[0].id
-        return norm(loop.target.elts[0]), norm(loop.target.elts[1]), L, f"range(len({L}))", par
+        return norm(loop.target.elts[0]), norm(loop.target.elts[1]), L, f"range(len({L}))", par % 2
     if isinstance(core, ast.Subscript) and isinstance(core.slice, ast.Slice) and isinstance(core.value, ast.Name) and core.slice.step is None and isinstance(loop.target, ast.Name):
         L = core.value.id
-        lo = canon(norm(core.slice.lower)) if core.slice.lower is not None else "0"
-        up = canon(norm(core.slice.upper)) if core.slice.upper is not None else f"len({L})"
-        return fresh, loop.target.id, L, (f"range({lo},{up})" if lo != "0" else f"range({up})"), par
+        lo = lin(core.slice.lower) if core.slice.lower is not None else "0"
+        up = lin(core.slice.upper) if core.slice.upper is not None else f"len({L})"
+        return fresh, loop.target.id, L, (f"range({lo},{up})" if lo != "0" else f"range({up})"), par % 2
     return None
 
 
@@ -321,8 +345,9 @@ def check_mirror(ctx: Ctx, qft: FuncInfo, iqft: FuncInfo):
     mp2 = {i2: "I", j2: "J"}
     el1 = {k: v for k, v in ((e1, f"{L1}[I]"), (ej1, f"{LJ1}[J]")) if k}
     el2 = {k: v for k, v in ((e2, f"{L2}[I]"), (ej2, f"{LJ2}[J]")) if k}
-    wires1 = [_subst_names(_subst_names(norm(a), el1), mp1) for a in cp1[0].args[1:]]
-    wires2 = [_subst_names(_subst_names(norm(a), el2), mp2) for a in cp2[0].args[1:]]
+    al1, al2 = pat.path_aliases(qft.node), pat.path_aliases(iqft.node)
+    wires1 = [_subst_names(_subst_names(pat.tx(a, al1), el1), mp1) for a in cp1[0].args[1:]]
+    wires2 = [_subst_names(_subst_names(pat.tx(a, al2), el2), mp2) for a in cp2[0].args[1:]]
     ctx.check(wires1 == wires2, "SB-MIRROR", iqft, "same control/target wires", str(wires1), f"qft applies cp on {wires1}, iqft on {wires2}", cp2[0])
     a1, a2 = _angle(qft, m1, cp1[0]), _angle(iqft, m2, cp2[0])
     for fn_, a_, els, cp_ in ((qft, a1, el1, cp1[0]), (iqft, a2, el2, cp2[0])):
